@@ -30,7 +30,6 @@ PROPS_FILE = "Props/C10.v"
 MAX_DEPTH = 254            # orjson: at most 254 nested containers (measured; Model/Json.v max_depth)
 INT_MIN = -2 ** 63
 INT_LIM = 2 ** 64
-FAILURE_TYPE = "eliot:destination_failure"
 
 TRUSTED = [
     "orjson implements the modelled compact encoder (tied on every run by the byte-for-byte comparison of this check)",
@@ -44,7 +43,11 @@ ASSUMPTIONS = [
     "nothing is written (checked) and the failure goes down C08's path",
     "text is a sequence of Unicode scalar values; a str holding a lone surrogate is refused by orjson, nothing is written (checked)",
     "NaN and +-Infinity are written as null (documented exception)",
-    "datetime.time values are naive: orjson rejects a tz-aware time before json_default is consulted (reported separately)",
+    "datetime.time values are naive: orjson rejects a tz-aware time itself (TypeError 'datetime.time must not have tzinfo set') "
+    "before json_default is consulted, so such a message is not written; not generated here, reported as a suspected finding",
+    "the documented encodings of the rich types (Path -> str, date/time -> isoformat, set -> list, complex -> {real, imag}, "
+    "extension objects -> what the caller's json_default returns) are applied by the harness function `documented`; there is no "
+    "Coq model of json_default, the model sees the resulting JSON-native value",
 ]
 RULE = ("messages generated from VERIF_SEED over the tagged JSON-native domain (all C0 codes, quote, backslash, U+007F, "
         "U+2028/9, astral, lone surrogates, +-2^63, 2^64-1, 2^64, -0.0, NaN, +-Inf, 1e308, 5e-324, nesting 1..300, non-string keys) "
@@ -877,7 +880,7 @@ def _corpus_encode():
 
 
 def gen_encode(rng, tier):
-    n = 450 if tier == "quick" else 6000
+    n = 400 if tier == "quick" else 6000
     cases = []
     for i in range(n):
         r = rng.random()
@@ -1062,7 +1065,7 @@ def _corpus_rich():
 
 
 def gen_rich(rng, tier):
-    n = 250 if tier == "quick" else 3000
+    n = 220 if tier == "quick" else 3000
     cases = []
     for i in range(n):
         jd = rng.choice(["default", "default", "ext", "ext", "ext_only"])
